@@ -7,7 +7,7 @@
     sitting; independent of the bytecode, the promise trampoline and
     bootstrap.pl's control predicates. Executable (fuel). *)
 From Coq Require Import ZArith Bool List String.
-From PV Require Import Model.Term Model.Unify Model.Order Model.Groups.
+From PV Require Import Model.Term Model.Unify Model.Order Model.Groups Model.Clause.
 From PV Require Import Model.GoInt Model.F64 Model.Num Gen.Arith_gen Model.Eval Model.Machine.
 Import ListNotations.
 Open Scope string_scope.
@@ -15,7 +15,15 @@ Open Scope list_scope.
 Open Scope Z_scope.
 
 (** source database: per predicate the clauses with their identities *)
-Record sproc := mkSProc { sp_name : string; sp_arity : nat; sp_dynamic : bool; sp_clauses : list (Z * term) }.
+(** a stored clause: identity, the clause that is executed, the clause that
+    clause/2 and retract/1 show.  In the ISO reading both are the given clause
+    (body converted to a goal).  [split] selects the storage convention of this
+    implementation instead: a top-level disjunctive body is stored as one
+    clause per disjunct, each showing the whole unconverted term -- a recorded
+    deviation (KNOWN_FINDINGS F3a), modelled so that it can be told apart from
+    any other disagreement. *)
+Record sclause := mkSC { sc_id : Z; sc_exec : term; sc_shown : term }.
+Record sproc := mkSProc { sp_name : string; sp_arity : nat; sp_dynamic : bool; sp_clauses : list sclause }.
 
 Record sstate := mkSS {
   ss_nextv : Z;
@@ -24,20 +32,21 @@ Record sstate := mkSS {
   ss_answers : list (list term);
   ss_limit : nat;
   ss_qvars : list term;
-  ss_collect : list (Z * list term)
+  ss_collect : list (Z * list term);
+  ss_split : bool
 }.
 
 Definition ss_fresh_id (st : sstate) : Z * sstate :=
-  (ss_nextid st, mkSS (ss_nextv st) (ss_nextid st + 1) (ss_db st) (ss_answers st) (ss_limit st) (ss_qvars st) (ss_collect st)).
+  (ss_nextid st, mkSS (ss_nextv st) (ss_nextid st + 1) (ss_db st) (ss_answers st) (ss_limit st) (ss_qvars st) (ss_collect st) (ss_split st)).
 Definition ss_fresh_vars (n : nat) (st : sstate) : list Z * sstate :=
   (map (fun i => ss_nextv st + Z.of_nat i) (seq 0 n),
-   mkSS (ss_nextv st + Z.of_nat n) (ss_nextid st) (ss_db st) (ss_answers st) (ss_limit st) (ss_qvars st) (ss_collect st)).
+   mkSS (ss_nextv st + Z.of_nat n) (ss_nextid st) (ss_db st) (ss_answers st) (ss_limit st) (ss_qvars st) (ss_collect st) (ss_split st)).
 Definition ss_set_db (st : sstate) (db : list sproc) : sstate :=
-  mkSS (ss_nextv st) (ss_nextid st) db (ss_answers st) (ss_limit st) (ss_qvars st) (ss_collect st).
+  mkSS (ss_nextv st) (ss_nextid st) db (ss_answers st) (ss_limit st) (ss_qvars st) (ss_collect st) (ss_split st).
 Definition ss_set_answers (st : sstate) (a : list (list term)) : sstate :=
-  mkSS (ss_nextv st) (ss_nextid st) (ss_db st) a (ss_limit st) (ss_qvars st) (ss_collect st).
+  mkSS (ss_nextv st) (ss_nextid st) (ss_db st) a (ss_limit st) (ss_qvars st) (ss_collect st) (ss_split st).
 Definition ss_set_collect (st : sstate) (c : list (Z * list term)) : sstate :=
-  mkSS (ss_nextv st) (ss_nextid st) (ss_db st) (ss_answers st) (ss_limit st) (ss_qvars st) c.
+  mkSS (ss_nextv st) (ss_nextid st) (ss_db st) (ss_answers st) (ss_limit st) (ss_qvars st) c (ss_split st).
 
 Definition ss_find (db : list sproc) (n : string) (a : nat) : option sproc :=
   find (fun p => String.eqb (sp_name p) n && Nat.eqb (sp_arity p) a) db.
@@ -105,6 +114,13 @@ Fixpoint convert (fuel : nat) (e : env) (g : term) : term :=
       | r => r
       end
   end.
+
+(** the stored entries for a clause H :- Body given with identities id, id+1, ... *)
+Definition entries (split : bool) (id : Z) (h body : term) : list sclause :=
+  if split
+  then map (fun ia => mkSC (id + Z.of_nat (fst ia)) (Cmp ":-" [h; convert UFUEL empty_env (snd ia)]) (Cmp ":-" [h; body]))
+           (let alts := alt_goals (tsize body) body in combine (seq 0 (List.length alts)) alts)
+  else let c := Cmp ":-" [h; convert UFUEL empty_env body] in [mkSC id c c].
 
 Section Solve.
 
@@ -321,19 +337,19 @@ Fixpoint solve (fuel : nat) (g : term) (e : env) (b : Z) (k : K) (st : sstate) {
                       if negb (sp_dynamic p) then (ORaise (perm_err "modify" "static_procedure" (pi_t fn (Z.of_nat (List.length a0)))), st)
                       else
                         (* the call-time snapshot; a clause is removed by identity, at most once *)
-                        (fix go (cs : list (Z * term)) : R :=
+                        (fix go (cs : list sclause) : R :=
                            match cs with
                            | [] => fun st => (OFail, st)
-                           | (id, c) :: cs' =>
+                           | c :: cs' =>
                                orelse (fun st =>
-                                         let '(c', st1) := ss_copy empty_env c st in
+                                         let '(c', st1) := ss_copy empty_env (sc_shown c) st in
                                          match unify e t' (rulify empty_env c') with
                                          | UOk e' =>
                                              match ss_find (ss_db st1) fn (List.length a0) with
                                              | Some p' =>
-                                                 if existsb (fun ic => Z.eqb (fst ic) id) (sp_clauses p')
+                                                 if existsb (fun x => Z.eqb (sc_id x) (sc_id c)) (sp_clauses p')
                                                  then k e' (ss_set_db st1 (ss_update (ss_db st1)
-                                                             (mkSProc fn (List.length a0) true (filter (fun ic => negb (Z.eqb (fst ic) id)) (sp_clauses p')))))
+                                                             (mkSProc fn (List.length a0) true (filter (fun x => negb (Z.eqb (sc_id x) (sc_id c))) (sp_clauses p')))))
                                                  else (OFail, st1)   (* already removed by someone else: not removed twice *)
                                              | None => (OFail, st1)
                                              end
@@ -356,11 +372,11 @@ Fixpoint solve (fuel : nat) (g : term) (e : env) (b : Z) (k : K) (st : sstate) {
                   | None => (OFail, st)
                   | Some p =>
                       if negb (sp_dynamic p) then (ORaise (perm_err "access" "private_procedure" (pi_t fn (Z.of_nat (List.length a0)))), st)
-                      else (fix go (cs : list (Z * term)) : R :=
+                      else (fix go (cs : list sclause) : R :=
                               match cs with
                               | [] => fun st => (OFail, st)
-                              | (_, c) :: cs' =>
-                                  orelse (fun st => let '(c', st1) := ss_copy empty_env c st in
+                              | c :: cs' =>
+                                  orelse (fun st => let '(c', st1) := ss_copy empty_env (sc_shown c) st in
                                                     match unify e (Cmp ":-" [h; body]) (rulify empty_env c') with
                                                     | UOk e' => k e' st1
                                                     | _ => (OFail, st1)
@@ -403,12 +419,12 @@ Fixpoint solve (fuel : nat) (g : term) (e : env) (b : Z) (k : K) (st : sstate) {
                   | None => (ORaise (exist_proc_err fn (List.length args)), st)
                   | Some p =>
                       let '(bid, st0) := ss_fresh_id st in
-                      (fix try (cs : list (Z * term)) : R :=
+                      (fix try (cs : list sclause) : R :=
                          match cs with
                          | [] => fun st => (OFail, st)
-                         | (_, c) :: cs' =>
+                         | c :: cs' =>
                              fun st =>
-                               let '(c', st1) := ss_copy empty_env c st in
+                               let '(c', st1) := ss_copy empty_env (sc_exec c) st in
                                match rulify empty_env c' with
                                | Cmp ":-" [h; body] =>
                                    match unify e (match args with [] => Atom fn | _ => Cmp fn args end) h with
@@ -531,9 +547,9 @@ with add_clause (fuel : nat) (front : bool) (t : term) (e : env) (k : K) (st : s
                   let p := match ss_find (ss_db st) fn ar with Some p => p | None => mkSProc fn ar true [] end in
                   if negb (sp_dynamic p) then (ORaise (perm_err "modify" "static_procedure" (pi_t fn (Z.of_nat ar))), st)
                   else
-                    let '(id, st1) := ss_fresh_id st in
-                    let c := Cmp ":-" [h; convert UFUEL empty_env body] in
-                    let cs := if front then (id, c) :: sp_clauses p else sp_clauses p ++ [(id, c)] in
+                    let new := entries (ss_split st) (ss_nextid st) h body in
+                    let st1 := mkSS (ss_nextv st) (ss_nextid st + Z.of_nat (List.length new)) (ss_db st) (ss_answers st) (ss_limit st) (ss_qvars st) (ss_collect st) (ss_split st) in
+                    let cs := if front then new ++ sp_clauses p else sp_clauses p ++ new in
                     let db' := match ss_find (ss_db st1) fn ar with
                                | Some _ => ss_update (ss_db st1) (mkSProc fn ar true cs)
                                | None => ss_db st1 ++ [mkSProc fn ar true cs]
@@ -553,28 +569,30 @@ Definition top_k : K := fun e st =>
   let st' := ss_set_answers st (ans :: ss_answers st) in
   (if Nat.leb (ss_limit st') (List.length (ss_answers st')) then OStop else OFail, st').
 
-Definition s_add_term (dynamic : bool) (acc : list sproc * Z) (t : term) : list sproc * Z :=
+Definition s_add_term (split dynamic : bool) (acc : list sproc * Z) (t : term) : list sproc * Z :=
   let '(db, id) := acc in
   match rulify empty_env t with
   | Cmp ":-" [h; body] =>
       let '(fn, ar) := match h with Atom a => (a, O) | Cmp g xs => (g, List.length xs) | _ => ("", O) end in
-      let t := Cmp ":-" [h; convert UFUEL empty_env body] in
+      let new := entries split id h body in
       match ss_find db fn ar with
-      | Some p => (ss_update db (mkSProc fn ar (sp_dynamic p) (sp_clauses p ++ [(id, t)])), id + 1)
-      | None => (db ++ [mkSProc fn ar dynamic [(id, t)]], id + 1)
+      | Some p => (ss_update db (mkSProc fn ar (sp_dynamic p) (sp_clauses p ++ new)), id + Z.of_nat (List.length new))
+      | None => (db ++ [mkSProc fn ar dynamic new], id + Z.of_nat (List.length new))
       end
   | _ => acc
   end.
-Definition s_consult (dynamic : bool) (db : list sproc) (id : Z) (ts : list term) : list sproc * Z :=
-  fold_left (s_add_term dynamic) ts (db, id).
+Definition s_consult (split dynamic : bool) (db : list sproc) (id : Z) (ts : list term) : list sproc * Z :=
+  fold_left (s_add_term split dynamic) ts (db, id).
 
 Inductive sending := SEndNo | SEndMore | SEndErr (e : merr) | SEndFuel | SEndStray.
 
-Definition s_run (fuel : nat) (db : list sproc) (nextv : Z) (q : term) (qvars : list Z) (limit : nat) : list (list term) * sending :=
-  let st := mkSS nextv 100 db [] limit (map Var qvars) [] in
+Definition s_run_gen (split : bool) (fuel : nat) (db : list sproc) (nextv : Z) (q : term) (qvars : list Z) (limit : nat) : list (list term) * sending :=
+  let st := mkSS nextv 100000 db [] limit (map Var qvars) [] split in
   let '(r, st') := opaque fuel q empty_env top_k st in
   (rev (ss_answers st'),
    match r with
    | OFail => SEndNo | OStop => SEndMore | ORaise e => SEndErr e | OPass _ e => SEndErr e
    | OFuel => SEndFuel | _ => SEndStray
    end).
+
+Definition s_run := s_run_gen false.
